@@ -84,6 +84,15 @@ QUERIES = [
     ('parse_error', 'update set zz = 1'),
     ('parse_error', 'select a1 +'),
     ('unknown_join', 'select * join {J}x on a2 == b1'),
+    # column names: right ones (header worlds) and misspelt ones (a failing query in every world)
+    ('named', 'select a.name, a.id'),
+    ('named', "update set a.name = 'Q' where a.id == '1'"),
+    ('named', 'select a.name, b.jval join {J} on a.name == b.key'),
+    ('named_unknown', 'select a.nmae'),
+    ('named_unknown', 'select a.id, a.tagg, a.name'),
+    ('named_unknown', "update set a.tga = 'Q'"),
+    ('named_unknown', 'select a.name, b.jvall join {J} on a.name == b.key'),
+    ('named_unknown', 'select a["nmae"], a1'),
     ('mutating_expr', 'select a1 where [record_a.append(1)] is None'),
     ('mutating_expr', 'select star_fields.append(1)'),
 ]
@@ -102,6 +111,9 @@ def generate(rng, tier, idx):
         rows[rng.randrange(len(rows))][0] = 'bad'          # runtime error at that record for int(a1)
     world = {'rows': rows, 'join_rows': workload.gen_join_table(rng, rng.choice([0, 1, 2, 3, 4])),
              'header': rng.random() < 0.3, 'list_quirks': None, 'wal': rng.random() < 0.3, 'df_variety': rng.random() < 0.4}
+    if not world['df_variety'] and rng.random() < 0.35:
+        # all-object frames with missing-value markers of every kind (what read_csv(dtype=object) / read_sql hand over)
+        world['df_gaps'] = [[rng.randrange(8), rng.randrange(3), rng.choice(['nan', 'na', 'nat', 'none', 'nan']), rng.choice(['A', 'A', 'B'])] for _ in range(rng.choice([1, 2, 3]))]
     if rng.random() < 0.3:
         world['list_quirks'] = {'shared': rng.random() < 0.5, 'ragged': rng.random() < 0.5, 'none_cell': rng.random() < 0.5, 'ragged_join': rng.random() < 0.5,
                                 'list_cells': rng.random() < 0.3, 'tuple_rows': rng.random() < 0.3}
@@ -157,6 +169,11 @@ def deep(x):
     if isinstance(x, tuple):
         return tuple(deep(v) for v in x)
     return x
+
+
+def df_cells(df):
+    """Every cell as (type name, repr): exact where DataFrame.equals is lenient about missing-value markers."""
+    return [[(type(v).__name__, repr(v)) for v in row] for row in df.itertuples(index=False, name=None)]
 
 
 class World(object):
@@ -255,8 +272,19 @@ class World(object):
             # non-string column labels on both frames, a named column axis on the join frame
             self.dfA.columns = [11, 12, 13, 14][:len(self.dfA.columns)]
             self.dfB.columns = pandas.Index([2019, 2020, 2021], name='year')
+        if spec.get('df_gaps'):
+            import numpy
+            markers = {'nan': numpy.nan, 'na': pandas.NA, 'nat': pandas.NaT, 'none': None}
+            self.dfA = self.dfA.astype(object)
+            self.dfB = self.dfB.astype(object)
+            for r, c, kind, which in spec['df_gaps']:
+                df = self.dfA if which == 'A' else self.dfB
+                if len(df.index) and len(df.columns):
+                    df.iat[r % len(df.index), c % len(df.columns)] = markers[kind]
         self.dfA_snap = self.dfA.copy(deep=True)
         self.dfB_snap = self.dfB.copy(deep=True)
+        self.dfA_cells = df_cells(self.dfA)
+        self.dfB_cells = df_cells(self.dfB)
         # js arrays live in the driver: each js operation ships a copy and gets the invariant report back
         self.js_rows = [list(r) for r in rows]
         self.js_join = [list(r) for r in jrows]
@@ -336,6 +364,9 @@ class World(object):
         if sha(self.db_path) != self.db_hash:
             return ('sqlite_changed', {})
         for name, df, snap in (('A', self.dfA, self.dfA_snap), ('B', self.dfB, self.dfB_snap)):
+            if df_cells(df) != (self.dfA_cells if name == 'A' else self.dfB_cells):
+                # DataFrame.equals treats every missing-value marker alike (NaN == None == NA); the cells are compared by type and repr
+                return ('df_changed', {'frame': name, 'cells': True})
             if not df.equals(snap) or list(df.dtypes) != list(snap.dtypes) or not df.index.equals(snap.index) or not df.columns.equals(snap.columns) \
                     or [type(c) for c in df.columns] != [type(c) for c in snap.columns] or df.columns.name != snap.columns.name or df.index.name != snap.index.name:
                 return ('df_changed', {'frame': name})
@@ -345,7 +376,7 @@ class World(object):
                 res_df.iloc[:, :] = 'MUT'
             except Exception:
                 pass
-            if not self.dfA.equals(self.dfA_snap) or not self.dfB.equals(self.dfB_snap):
+            if not self.dfA.equals(self.dfA_snap) or not self.dfB.equals(self.dfB_snap) or df_cells(self.dfA) != self.dfA_cells or df_cells(self.dfB) != self.dfB_cells:
                 return ('df_changed_via_output', {})
         js = produced.get('js')
         if js is not None:
@@ -616,7 +647,13 @@ def shrinks(sc):
         c['world'] = dict(w)
         c['world']['list_quirks'] = None
         yield c
-    for flag in ('header', 'wal'):
+    gaps = w.get('df_gaps') or []
+    for i in range(len(gaps)):
+        c = dict(sc)
+        c['world'] = dict(w)
+        c['world']['df_gaps'] = gaps[:i] + gaps[i + 1:]
+        yield c
+    for flag in ('header', 'wal', 'df_variety'):
         if w.get(flag):
             c = dict(sc)
             c['world'] = dict(w)
